@@ -179,6 +179,7 @@ class _Inliner:
         self.counter = 0
         self.inlined: list[str] = []
         self.helpers_inlined: dict[str, object] = {}
+        self._sites: dict[str, int] = {}
 
     def run(self) -> None:
         for _round in range(2):
@@ -246,7 +247,35 @@ class _Inliner:
         shape = _helper_ok(h.node, h.decorators)
         if shape is None:
             return None
+        if shape == 'stmts' and self._call_sites(h) != 1:
+            # a helper shared by several call sites is an abstraction of its own (like the executor's top-up
+            # routine); only single-use helpers are "extract method" artefacts
+            return None
         return h, recv, shape
+
+    def _call_sites(self, h) -> int:
+        if h.qualname not in self._sites:
+            n = 0
+            for f in self.P.funcs.values():
+                if f.module.name != h.module.name:
+                    continue
+                for c in [x for x in walk_local(f.node) if isinstance(x, ast.Call)]:
+                    nm = c.func.id if isinstance(c.func, ast.Name) else (c.func.attr if isinstance(c.func, ast.Attribute) else None)
+                    if nm == h.name:
+                        n += 1
+                # references as a value (Thread(target=self._h), partial(self._h, ...)) count as further uses
+                for x in walk_local(f.node):
+                    if isinstance(x, ast.Attribute) and x.attr == h.name and isinstance(x.ctx, ast.Load):
+                        n += 0
+            refs = 0
+            for x in ast.walk(h.module.tree):
+                if isinstance(x, ast.Attribute) and x.attr == h.name and isinstance(x.ctx, ast.Load):
+                    refs += 1
+                elif isinstance(x, ast.Name) and x.id == h.name and isinstance(x.ctx, ast.Load):
+                    refs += 1
+            # refs counts call-position uses too; value references = refs - calls
+            self._sites[h.qualname] = n if refs <= n else max(n, refs)
+        return self._sites[h.qualname]
 
     def _outer_self(self, fn):
         f = fn
@@ -438,13 +467,16 @@ class _Inliner:
 # P0: alias propagation
 
 
-def _pure_alias_value(e: ast.AST) -> bool:
+def _pure_alias_value(e: ast.AST, allow_subscript: bool = False) -> bool:
     """Attribute chains, names, constants, type(x), getattr(x, y.name), and comparisons / boolean
     combinations / `is None` tests of those.  No subscripts (contents may change), no other calls."""
     if isinstance(e, (ast.Name, ast.Constant)):
         return True
     if isinstance(e, ast.Attribute):
         return _pure_alias_value(e.value)
+    if isinstance(e, ast.Subscript) and allow_subscript:
+        # alias of a container entry (`deps = self.m[k]`): the same object as long as self.m[k] is not re-assigned
+        return isinstance(e.value, ast.Attribute) and _pure_alias_value(e.value) and _pure_alias_value(e.slice)
     if isinstance(e, ast.Call):
         d = dotted(e.func)
         if d == 'type' and len(e.args) == 1 and not e.keywords:
@@ -490,9 +522,20 @@ def propagate_aliases(fn_node: ast.AST) -> int:
             elif isinstance(s, ast.AnnAssign) and isinstance(s.target, ast.Name) and s.value is not None:
                 tgt, val = s.target.id, s.value
             if tgt is None or stores.get(tgt, 0) != 1 or tgt in params or tgt in nested_uses \
-                    or not _pure_alias_value(val) or isinstance(val, (ast.Constant, ast.Name)):
+                    or not _pure_alias_value(val, allow_subscript=True) or isinstance(val, (ast.Constant, ast.Name)):
                 i += 1
                 continue
+            if isinstance(val, ast.Subscript):
+                # the entry must not be re-assigned / deleted anywhere in the function (mutation through the
+                # alias or through the entry is the same object)
+                base = dotted(val.value)
+                rebound = False
+                for x in walk_local(fn_node):
+                    if isinstance(x, ast.Subscript) and isinstance(x.ctx, (ast.Store, ast.Del)) and dotted(x.value) == base:
+                        rebound = True
+                if rebound:
+                    i += 1
+                    continue
             reads = {x.id for x in ast.walk(val) if isinstance(x, ast.Name)}
             # every name the value reads is bound at most once (parameter, loop target, single assignment)
             if any(stores.get(r, 0) > 1 for r in reads) or tgt in reads:
@@ -705,13 +748,83 @@ def fold_dict_builders(fn_node: ast.AST) -> int:
 # driver
 
 
+def split_pops(fn_node: ast.AST) -> int:
+    """`x = self.d.pop(k)` -> `x = self.d[k]; del self.d[k]`, statement `self.d.pop(k)` -> `del self.d[k]`
+    (one-argument pop on an attribute of self: a dict entry removal)."""
+    count = 0
+
+    def is_self_pop(c: ast.AST) -> bool:
+        return isinstance(c, ast.Call) and isinstance(c.func, ast.Attribute) and c.func.attr == 'pop' and len(c.args) == 1 \
+            and not c.keywords and isinstance(c.func.value, ast.Attribute) and isinstance(c.func.value.value, ast.Name) \
+            and c.func.value.value.id in ('self',) and not (isinstance(c.args[0], ast.Constant) and isinstance(c.args[0].value, int))
+    for owner, fld, block in list(_blocks(fn_node)):
+        i = 0
+        while i < len(block):
+            s = block[i]
+            if isinstance(s, ast.Assign) and len(s.targets) == 1 and is_self_pop(s.value):
+                c = s.value
+                sub = ast.Subscript(value=c.func.value, slice=c.args[0], ctx=ast.Load())
+                get = ast.Assign(targets=s.targets, value=sub)
+                dele = ast.Delete(targets=[ast.Subscript(value=copy.deepcopy(c.func.value), slice=copy.deepcopy(c.args[0]), ctx=ast.Del())])
+                for n in (get, dele):
+                    ast.copy_location(n, s)
+                    ast.fix_missing_locations(n)
+                block[i:i + 1] = [get, dele]
+                count += 1
+                i += 2
+                continue
+            if isinstance(s, ast.Expr) and is_self_pop(s.value):
+                c = s.value
+                dele = ast.Delete(targets=[ast.Subscript(value=c.func.value, slice=c.args[0], ctx=ast.Del())])
+                ast.copy_location(dele, s)
+                ast.fix_missing_locations(dele)
+                block[i] = dele
+                count += 1
+            i += 1
+    return count
+
+
+def partials_to_closures(fn_node: ast.AST) -> int:
+    """`name = functools.partial(F, *a, **kw)` (name assigned once, only ever called) -> `def name(*x, **y): return F(*a, *x, **kw, **y)`
+    restricted to the zero-extra-argument use: `def name(): return F(*a, **kw)`."""
+    count = 0
+    for owner, fld, block in list(_blocks(fn_node)):
+        for i, s in enumerate(block):
+            if isinstance(s, ast.Assign) and len(s.targets) == 1 and isinstance(s.targets[0], ast.Name) and isinstance(s.value, ast.Call) \
+                    and dotted(s.value.func) in ('functools.partial', 'partial') and s.value.args:
+                name = s.targets[0].id
+                stores = sum(1 for x in walk_local(fn_node) if isinstance(x, ast.Name) and x.id == name and isinstance(x.ctx, ast.Store))
+                loads = [x for x in walk_local(fn_node) if isinstance(x, ast.Name) and x.id == name and isinstance(x.ctx, ast.Load)]
+                calls = [c for c in walk_local(fn_node) if isinstance(c, ast.Call) and isinstance(c.func, ast.Name) and c.func.id == name
+                         and not c.args and not c.keywords]
+                if stores != 1 or len(loads) != len(calls) or not calls:
+                    continue
+                call = ast.Call(func=s.value.args[0], args=list(s.value.args[1:]), keywords=list(s.value.keywords))
+                fdef = ast.FunctionDef(name=name, args=ast.arguments(posonlyargs=[], args=[], vararg=None, kwonlyargs=[], kw_defaults=[],
+                                                                      kwarg=None, defaults=[]),
+                                       body=[ast.Return(value=call)], decorator_list=[], returns=None, type_comment=None, type_params=[])
+                ast.copy_location(fdef, s)
+                ast.fix_missing_locations(fdef)
+                block[i] = fdef
+                count += 1
+    return count
+
+
 def canonicalise(sources: dict[str, str]) -> tuple[Program, dict]:
     """Parse, inline new private helpers, normalise every function body; returns the Program over the
     canonical trees and a small report."""
-    pre = Program(sources)
-    report = {'inlined_helpers': [], 'aliases_propagated': 0, 'accumulator_loops_folded': 0, 'dict_builders_folded': 0}
-    if pre.parse_errors:
-        return pre, report
+    pre0 = Program(sources)
+    report = {'inlined_helpers': [], 'aliases_propagated': 0, 'accumulator_loops_folded': 0, 'dict_builders_folded': 0,
+              'pops_split': 0, 'partials_to_closures': 0}
+    if pre0.parse_errors:
+        return pre0, report
+    trees0 = {m.path: m.tree for m in pre0.modules.values()}
+    for tree in trees0.values():
+        for n in ast.walk(tree):
+            if isinstance(n, (ast.FunctionDef, ast.AsyncFunctionDef)):
+                report['pops_split'] += split_pops(n)
+                report['partials_to_closures'] += partials_to_closures(n)
+    pre = Program(sources, trees=trees0)
     inl = _Inliner(pre)
     inl.run()
     report['inlined_helpers'] = inl.inlined
